@@ -137,6 +137,11 @@ func Run(c *core.Ctx) {
 	var prs []pr
 	for _, p := range cand {
 		for _, n := range cand {
+			// all pairs of strings of up to 3 characters; of the pairs that involve a 4-character string
+			// (thorough tier) a seeded fifth - the full product is beyond what TLC judges in its time limit
+			if (len(p) > 3 || len(n) > 3) && rng.Intn(5) != 0 {
+				continue
+			}
 			prs = append(prs, pr{p, n})
 		}
 	}
